@@ -290,8 +290,9 @@ func (conn *Tunnel) requestTunnel(data cemi.Message) error {
 				return errors.New("connection server has terminated")
 			}
 
-			// Ignore mismatching sequence numbers.
-			if res.SeqNumber != conn.seqNumber {
+			// Ignore mismatching sequence numbers and acknowledgements for another channel, e.g. one
+			// that was received before a reconnect assigned a new channel.
+			if res.SeqNumber != conn.seqNumber || res.Channel != req.Channel {
 				continue
 			}
 
